@@ -196,6 +196,13 @@ class _PathClient(SymClient):
             x = node.exc.func if isinstance(node.exc, ast.Call) else node.exc
             add = ("raise", ast.unparse(x).split(".")[-1] if x is not None else "re-raise")
         elif kind == "yield":
+            if isinstance(node, ast.YieldFrom):
+                # `yield from <iterable>`: the engine keeps yielding until nothing changes; one round says it all
+                lid = ("yf",) + _site(node)
+                n_round = dict(rounds).get(lid, 0)
+                if n_round >= 1:
+                    return []
+                rounds = tuple(sorted({**dict(rounds), lid: n_round + 1}.items(), key=repr))
             add = ("yield", self.sym(getattr(node, "value", None), env, ver, ctx))
         elif kind == "with_enter":
             add = ("with", self.sym(node.context_expr, env, ver, ctx))
